@@ -14,6 +14,14 @@ CFGS = [("native", {}), ("native", {"SODIUM_VERIF_CPUID7_EBX_CLEAR": "0x10020"})
 
 def run(R):
     thorough = R.tier == "thorough"
+    # the two-word block counter advanced in batches (scaled words): every initial counter, every stream length
+    rm = R.tlc("sys/BlockCounter.tla", "MCBlockCounter.cfg", workers=4, timeout=600)
+    if rm.violated:
+        R.violation("BlockCounter.tla: a block is produced under the wrong counter: " + rm.tail(30), rm.out, name="model")
+    for cfg in ("MCBlockCounterBroken1.cfg", "MCBlockCounterBroken2.cfg"):
+        if not R.tlc("sys/BlockCounter.tla", cfg, workers=2, timeout=300).violated:
+            raise vlib.MachineryError("vacuity: %s (missing / per-batch carry) is not rejected" % cfg)
+    R.cov["counter_model"] = {"module": "BlockCounter", "word_bits": 4, "distinct": rm.distinct, "broken_variants_rejected": 2}
     R.build_all(sorted({v for v, _ in CFGS}))
     files = []
     seeds = [R.seed] if not thorough else [R.seed + j for j in range(8)]
